@@ -199,6 +199,9 @@ def _rewrap(res, ldt=_F64):
         return tuple(_rewrap(x, ldt) for x in res)
     if isinstance(res, list):
         return [_rewrap(x, ldt) for x in res]
+    if isinstance(res, (int, float)) and not isinstance(res, bool):
+        # reductions of empty / all-concrete object arrays give python numbers; numpy gives scalars
+        return _np.dtype(ldt).type(res) if _np.dtype(ldt).kind == "f" else res
     return res
 
 
